@@ -168,6 +168,11 @@ class DequeModel:
     def call(self, eng: Any, st: State, args: list, kwargs: dict, node: Any, ctx: Any):
         maxlen = kwargs.get("maxlen", args[1] if len(args) > 1 else None)
         src = args[0] if args else None
+        if maxlen is None and src is None:
+            # an unbounded, initially empty deque used as a store: only append / len matter
+            st2, r = eng.alloc(st, "absbag", "deque", n=z3.IntVal(0))
+            yield st2, r
+            return
         if maxlen is None or not V.is_int(maxlen):
             raise Unsupported("deque without integer maxlen", node)
         if not (isinstance(src, Ref) and st.obj(src).kind == "reptuple" and st.obj(src).get("item") is None):
@@ -411,7 +416,79 @@ class HandlersModel:
         yield st, None
 
 
+class AbsIterModel:
+    """A-ABSITER: an iterable of unknown length delivering items of a known sort; it is only ever consumed by a loop
+    that carries an invariant, by `yield from`, or handed on. Nothing is assumed about its length or its items beyond
+    their sort (so the loop is verified for every input sequence)."""
+    name = "A-ABSITER abstract iterable"
+    kind = "absiter"
+
+    def make(self, eng: Any, st: State, sort: Sort, name: str) -> tuple[State, Any, list]:
+        st, r = eng.alloc(st, "absiter", None, elem=sort.arg, id=V.fresh_int(name))
+        return st, r, []
+
+    def getattr(self, eng: Any, st: State, r: Ref, attr: str, node: Any, ctx: Any):
+        raise Unsupported(f"attribute {attr} of an abstract iterable", node)
+
+    def truth(self, eng: Any, st: State, r: Ref) -> Any:
+        return True           # generators/iterators are truthy
+
+
+class AbsBagModel:
+    """A-ABSITER for stores: a growing container of which only the number of elements is tracked (append, len, bool)"""
+    name = "A-ABSITER abstract store"
+    kind = "absbag"
+
+    def make(self, eng: Any, st: State, sort: Sort, name: str) -> tuple[State, Any, list]:
+        n = V.fresh_int(name + ".n")
+        st, r = eng.alloc(st, "absbag", "deque", n=n)
+        return st, r, [n >= 0]
+
+    def getattr(self, eng: Any, st: State, r: Ref, attr: str, node: Any, ctx: Any):
+        yield st, BuiltinMethod(r, attr)
+
+    def length(self, eng: Any, st: State, r: Ref) -> Any:
+        return st.obj(r).get("n")
+
+    def truth(self, eng: Any, st: State, r: Ref) -> Any:
+        return st.obj(r).get("n") > 0
+
+    def call_method(self, eng: Any, st: State, r: Ref, name: str, args: list, kwargs: dict, node: Any, ctx: Any):
+        if name == "append" and len(args) == 1:
+            yield st.heap_set(r, "n", st.obj(r).get("n") + 1), None
+            return
+        raise Unsupported(f"deque.{name} on an abstract store", node)
+
+
+class AbsMapModel:
+    """A-ABSITER for mappings: a dict of unknown size, only .items()/.keys()/.values() (as abstract iterables)"""
+    name = "A-ABSITER abstract mapping"
+    kind = "absmap"
+
+    def make(self, eng: Any, st: State, sort: Sort, name: str) -> tuple[State, Any, list]:
+        st, r = eng.alloc(st, "absmap", "dict", key=sort.arg, val=sort.arg2, id=V.fresh_int(name))
+        return st, r, []
+
+    def getattr(self, eng: Any, st: State, r: Ref, attr: str, node: Any, ctx: Any):
+        yield st, BuiltinMethod(r, attr)
+
+    def call_method(self, eng: Any, st: State, r: Ref, name: str, args: list, kwargs: dict, node: Any, ctx: Any):
+        o = st.obj(r)
+        if name == "items" and not args:
+            st, it = eng.alloc(st, "absiter", None, elem=Sort("tup", (o.get("key"), o.get("val"))), id=V.fresh_int("items"))
+        elif name == "keys" and not args:
+            st, it = eng.alloc(st, "absiter", None, elem=o.get("key"), id=V.fresh_int("keys"))
+        elif name == "values" and not args:
+            st, it = eng.alloc(st, "absiter", None, elem=o.get("val"), id=V.fresh_int("values"))
+        else:
+            raise Unsupported(f"dict.{name} on an abstract mapping", node)
+        yield st, it
+
+
 def install(reg: Any = REGISTRY) -> None:
+    reg.models["absiter"] = AbsIterModel()
+    reg.models["absmap"] = AbsMapModel()
+    reg.models["absbag"] = AbsBagModel()
     reg.models["slotdict"] = SlotDictModel()
     reg.models["handlers"] = HandlersModel()
     reg.models["bytes"] = BytesModel()
